@@ -430,6 +430,22 @@ def gen_family_history(rng, n_events=None, with_backward=False):
             for cand in (v2, v1, own):
                 if cand is not None and rng.random() < 0.8:
                     mutate(b, rng, cand)
+    if rng.random() < 0.2:
+        # a view OF A VIEW whose shape is then assigned in place, beside a sibling view; followed by updates through owner / views
+        x = b.leaf(rng.choice([(8,), (2, 4), (6,)]), const=rng.random() < 0.1)
+        n0 = x.shape[-1]
+        step = rng.choice([2, -2, 1, -1])
+        v = b.apply("getitem", [x], {"index": ([{"ellipsis": True}] if len(x.shape) > 1 else []) + [{"slice": [None, None, step]}]})
+        w = b.apply("getitem", [v], {"index": ([{"ellipsis": True}] if len(x.shape) > 1 else []) + [{"slice": [None, None, rng.choice([-1, 1])]}]}) if v is not None else None
+        if rng.random() < 0.5:
+            b.apply("getitem", [x], {"index": ([{"ellipsis": True}] if len(x.shape) > 1 else []) + [{"slice": [1, 3, None]}]})
+        if w is not None and w.size > 1:
+            opts = [sh for sh in progs.SHAPES + [(w.size,), (2, w.size // 2), (w.size // 2, 2), (1, w.size)] if int(np.prod(sh, dtype=np.int64)) == w.size and tuple(sh) != tuple(w.shape)]
+            if opts:
+                b.setshape(w, rng.choice(opts))
+            for cand in (x, v, w):
+                if cand is not None and cand.name in b.tensors and rng.random() < 0.8:
+                    mutate(b, rng, cand)
     n_events = n_events or rng.randint(3, 12)
     made = 0
     tries = 0
